@@ -3,6 +3,7 @@ package main
 import (
 	"fmt"
 	"math"
+	"os"
 	"math/rand"
 	"path/filepath"
 	"sort"
@@ -396,9 +397,17 @@ func runRound(r *hx.Result, cfg hx.Config, rng *rand.Rand, drv *model.Driver, s 
 		c.MustDo("SET", rd.key, "zsync2", "POINT", ff(far.lat), ff(far.lon))
 		c.MustDo("SET", rd.key, "zsync", "POINT", ff(far.lat), ff(far.lon))
 		state[rd.key]["zsync2"], state[rd.key]["zsync"] = far, far
-		if _, err := live.Next(5 * time.Second); err != nil { // zsync2 is nearby zsync
-			r.Fail(hx.Failure{Kind: "oracle", Signature: "roam-live-missing", What: "live ROAM fence did not report the sync neighbour: " + err.Error(), Case: label})
-			live = nil
+		// zsync2 is nearby zsync. A live fence evaluates a write when its goroutine gets to it, against
+		// the collection as it is then: the SET of zsync2 may or may not already see zsync, so skip
+		// up to the message of the zsync write itself.
+		for live != nil {
+			m, err := live.Next(5 * time.Second)
+			if err != nil {
+				r.Fail(hx.Failure{Kind: "oracle", Signature: "roam-live-missing", What: "live ROAM fence did not report the sync neighbour: " + err.Error(), Case: label})
+				live = nil
+			} else if m.ID == "zsync" {
+				break
+			}
 		}
 	}
 	sub.Collect() // drop what the setup produced
@@ -465,6 +474,9 @@ func runRound(r *hx.Result, cfg hx.Config, rng *rand.Rand, drv *model.Driver, s 
 			c.MustDo("SET", rd.key, "zsync", "POINT", ff(state[rd.key]["zsync"].lat), ff(state[rd.key]["zsync"].lon))
 			for {
 				m, err := live.Next(5 * time.Second)
+				if os.Getenv("VERIF_C20_DEBUG") == label {
+					fmt.Fprintf(os.Stderr, "step %d (%s %s): live %s\n", i, st.id, st.cat, m.Raw)
+				}
 				if err != nil {
 					r.Fail(hx.Failure{Kind: "oracle", Signature: "roam-live-missing", What: "live ROAM fence stopped delivering: " + err.Error(), Case: label})
 					live = nil
